@@ -10,6 +10,8 @@ Line protocol of the C16 correspondence run (same request file as harness/src/bi
                                        -> `ok (<val>*)* ;; ok <spec rows> ;; <tag>*`  rows of `SELECT *`, sorted
 
   `(ddl <TY> (opts <null|notnull|unique|pk>*))` -> `ok nullable=<b> primary=<b>` | `err`: what CREATE TABLE catalogues
+  `(ddlre <TY> (opts …))`: the same on a disk database, read back after shutdown + reopen
+  engine `diskre` of the INSERT scenarios: disk, with shutdown + reopen between the CREATE TABLEs and the INSERTs
   decl: `(<TY> <null|notnull|pk>)` or `(<TY> (opts o*))` (column options as written, in order)
   `(inscols <eng> (decls …) (cols i…) (rows …))`  INSERT INTO t(c_i…) VALUES …, same answer format
   `(inssel <eng> (src (<TY> <n>)*) (decls …) (rows …))`  rows into s, then INSERT INTO t SELECT * FROM s
@@ -149,6 +151,18 @@ def insertionSortStr (xs : List String) : List String :=
       | y :: ys => if x < y then x :: y :: ys else y :: ins ys
     ins acc) []
 
+/-- `disk`, and `diskre` = the disk engine with a shutdown + reopen between CREATE TABLE and the
+INSERTs: the model has no persistence, so both are the disk engine — "the catalog entry (column types,
+NOT NULL / PRIMARY KEY flags) survives reopen" is the hypothesis the differential run checks. -/
+def isDisk (eng : String) : Bool := eng == "disk" || eng == "diskre"
+
+def answerDdl (os : List Sexp) : String :=
+  match parseOpts os with
+  | some opts => match catalogOf opts with
+    | some (n, pk) => "ok nullable=" ++ toString n ++ " primary=" ++ toString pk
+    | none => "err"
+  | none => "bad-request"
+
 def answer (line : String) : String :=
   match Sexp.parse line with
   | some (.list [.atom "type", e]) =>
@@ -157,12 +171,10 @@ def answer (line : String) : String :=
       | some ty => "ok " ++ ty.name
       | none => "err"
     | none => "bad-request"
-  | some (.list [.atom "ddl", .atom _ty, .list (.atom "opts" :: os)]) =>
-    match parseOpts os with
-    | some opts => match catalogOf opts with
-      | some (n, pk) => "ok nullable=" ++ toString n ++ " primary=" ++ toString pk
-      | none => "err"
-    | none => "bad-request"
+  | some (.list [.atom "ddl", .atom _ty, .list (.atom "opts" :: os)]) => answerDdl os
+  -- the same CREATE TABLE on a disk database, read after shutdown + reopen: the model has no
+  -- persistence; "the catalog entry survives reopen" is the hypothesis this request checks
+  | some (.list [.atom "ddlre", .atom _ty, .list (.atom "opts" :: os)]) => answerDdl os
   | some (.list [.atom "ptype", p]) =>
     match parseP p with
     | some t => match typeOfPlan t with
@@ -172,7 +184,7 @@ def answer (line : String) : String :=
   | some (.list [.atom "ins", .atom eng, .list (.atom "decls" :: ds), .list (.atom "rows" :: rs)]) =>
     match parseDecls ds, parseValRows rs with
     | some decls, some rows =>
-      let e := if eng == "disk" then Engine.disk else Engine.mem
+      let e := if isDisk eng then Engine.disk else Engine.mem
       let showRows := fun (rs : List (List IVal)) =>
         " ".intercalate (insertionSortStr (rs.map fun r => "(" ++ " ".intercalate (r.map showIVal) ++ ")"))
       -- tags only of rows the implementation model actually stores
@@ -184,7 +196,7 @@ def answer (line : String) : String :=
       .list (.atom "rows" :: rs)]) =>
     match parseDecls ds, parseValRows rs with
     | some decls, some rows =>
-      let e := if eng == "disk" then Engine.disk else Engine.mem
+      let e := if isDisk eng then Engine.disk else Engine.mem
       let cols := cs.filterMap fun c => match c with | .atom a => a.toNat? | _ => none
       let full := rows.map (expandRow decls.length cols)
       let showRows := fun (rs : List (List IVal)) =>
@@ -197,7 +209,7 @@ def answer (line : String) : String :=
       .list (.atom "rows" :: rs)]) =>
     match parseDecls ss, parseDecls ds, parseValRows rs with
     | some sdecls, some decls, some rows =>
-      let e := if eng == "disk" then Engine.disk else Engine.mem
+      let e := if isDisk eng then Engine.disk else Engine.mem
       -- what `SELECT * FROM s` yields (the disk engine already replaced NULLs of NOT NULL columns)
       let src := selectAll e sdecls rows
       let stored := insertSelect decls src
@@ -213,7 +225,7 @@ def answer (line : String) : String :=
       .list (.atom "rows" :: rs)]) =>
     match parseDecls ss, parseTyName ty, parseValRows rs with
     | some sdecls, some t, some rows =>
-      let e := if eng == "disk" then Engine.disk else Engine.mem
+      let e := if isDisk eng then Engine.disk else Engine.mem
       let src := selectAll e sdecls rows
       let showRows := fun (rs : List (List IVal)) =>
         " ".intercalate (insertionSortStr (rs.map fun r => "(" ++ " ".intercalate (r.map showIVal) ++ ")"))
